@@ -1127,3 +1127,89 @@ func c01R39and40(ic *IC, r *Report) {
 	r.Check(def, "R01.40", "_select/clause-forms/every-form-has-a-direction", ic.pos(sw.Pos()), "the switch over the clause forms has a default branch assigning the direction",
 		"the switch of _select over the forms of a comm clause lists some forms only and has no default branch assigning the direction: a clause of another form - `select { case x = <-c: }`, a receive with assignment and an empty body - keeps direction 0 and reflect.Select panics (invalid Dir)")
 }
+
+func init() {
+	ruleText["R01.41"] = "each assignment to the blank identifier inside a function has a location of its own: in the assignStmt/defineStmt case of cfg, the lookup that makes a definition reuse the symbol already declared under the destination's name is not executed for the blank identifier - it lies in the else part of a test of the destination's name against \"_\" (or under a condition excluding it). All blanks of a scope otherwise share one symbol, whose slot takes the type of the last one: `_ = f(); _ = g()` with results of different types panics in reflect.Set"
+}
+
+// c01R41: D131 (found while writing the demonstration of D132).
+func c01R41(ic *IC, r *Report) {
+	info := ic.Info
+	cfgFn := ic.fn(r, "Interpreter.cfg")
+	if cfgFn == nil {
+		return
+	}
+	var cc *ast.CaseClause
+	ast.Inspect(cfgFn.Decl.Body, func(q ast.Node) bool {
+		c, ok := q.(*ast.CaseClause)
+		if !ok {
+			return true
+		}
+		for _, l := range kindLabels(ic, c) {
+			if l == "assignStmt" && len(callsIn(info, c, true, "interp.scope.isRedeclared")) > 0 {
+				cc = c
+			}
+		}
+		return true
+	})
+	if cc == nil {
+		r.Errorf("R01.41: the assignStmt/defineStmt case of cfg (post-order) was not found")
+		return
+	}
+	blankTest := func(e ast.Expr) (found, negated bool) {
+		ast.Inspect(e, func(z ast.Node) bool {
+			b, ok := z.(*ast.BinaryExpr)
+			if !ok || (b.Op != token.EQL && b.Op != token.NEQ) {
+				return true
+			}
+			if l, ok := unparen(b.Y).(*ast.BasicLit); ok && l.Value == `"_"` {
+				if se, ok := unparen(b.X).(*ast.SelectorExpr); ok && se.Sel.Name == "ident" {
+					found, negated = true, b.Op == token.NEQ
+				}
+			}
+			return true
+		})
+		return
+	}
+	n := 0
+	// the reuse: sym = the symbol found by lookup(dest.ident), inside the branch taken for a redeclaration
+	ast.Inspect(cc, func(q ast.Node) bool {
+		as, ok := q.(*ast.AssignStmt)
+		if !ok || len(as.Rhs) != 1 || len(callsIn(info, as.Rhs[0], false, "interp.scope.lookup")) == 0 {
+			return true
+		}
+		path := enclosingPath(cc, as)
+		inRedecl := false
+		for _, p := range path {
+			if ifs, ok := p.(*ast.IfStmt); ok && len(callsIn(info, ifs.Cond, false, "interp.scope.isRedeclared")) > 0 {
+				inRedecl = true
+			}
+		}
+		if !inRedecl {
+			return true
+		}
+		n++
+		excluded := false
+		for i, p := range path {
+			ifs, ok := p.(*ast.IfStmt)
+			if !ok || i+1 >= len(path) {
+				continue
+			}
+			found, neg := blankTest(ifs.Cond)
+			if !found {
+				continue
+			}
+			inElse := ifs.Else != nil && path[i+1] == ast.Node(ifs.Else)
+			inBody := path[i+1] == ast.Node(ifs.Body)
+			if (inElse && !neg) || (inBody && neg) {
+				excluded = true
+			}
+		}
+		r.Check(excluded, "R01.41", fmt.Sprintf("cfg/case:assignStmt/symbol-reuse#%d/not-for-the-blank-identifier", n), ic.pos(as.Pos()), "the reuse of an existing symbol is not reached for the blank identifier",
+			"in the assignStmt/defineStmt case of cfg the lookup that makes a definition reuse the symbol declared under the same name is reached for the blank identifier too: all `_` of a scope share one symbol and one slot, whose type is that of the last assignment, so `_ = f(); _ = g()` with f returning a string and g a []string panics (reflect.Set: value of type string is not assignable to type []string)")
+		return true
+	})
+	if n == 0 {
+		r.Errorf("R01.41: no reuse of an existing symbol (lookup under the isRedeclared test) found in the assignStmt/defineStmt case of cfg")
+	}
+}
